@@ -100,6 +100,16 @@ CHECKS = {
         "replaced constellation point are judged (unreachable point => rejected).",
         "2^144 blocks by the structural argument over learned tables plus sampled end-to-end blocks; rejection = AssertionError from decode.",
     ),
+    "C11": (
+        "DESIGN.md 5/C11",
+        "TLC recomputation of all 65 536 GF(2^8) products and syndrome evaluation of generated / checked words (RS1294.tla), with LFSR model and distance argument at design level",
+        "TLC recomputes every product of log_multiply by shift-and-reduce modulo x^8+x^4+x^3+x^2+1, evaluates the three syndromes of every "
+        "generated word after removing the mask (9 x 255 single-symbol messages, standard masks, random pairs), judges the checker on "
+        "generated, corrupted (1-3 symbols) and random words (accepted iff zero syndromes), and checks at design level that "
+        "(x-a)(x-a^2)(x-a^3) = x^3+14x^2+56x+64, that the LFSR model reproduces the observed parity and that any three parity-check "
+        "columns are independent (distance 4).",
+        "Messages are sampled (basis + random); products exhaustive; corrupted words sampled.",
+    ),
 }
 
 NOT_YET = {}
